@@ -245,6 +245,9 @@ func dispClass(m MemShape) string {
 
 func memClass(m MemShape) string {
 	if m.ASize == 0 {
+		if m.Disp < 0 {
+			return "abs.neg." + immClass(m.Disp)
+		}
 		return "abs." + immClass(m.Disp)
 	}
 	var s string
@@ -395,7 +398,12 @@ func matchMem(x XOp, g Operand, mode int) *Mismatch {
 		// an absolute address may be encoded at either address size as long as
 		// the address itself is unchanged
 		if g.ASize != mode {
-			if g.Coef != x.Coef || uint64(g.Disp)&widthMask(g.ASize) != uint64(x.Disp)&widthMask(32) {
+			// a negative number designates the address it wraps to at the mode's own address width ([-2] is 0xFFFE in 16-bit code)
+			want := uint64(x.Disp) & widthMask(32)
+			if x.Disp < 0 {
+				want = uint64(x.Disp) & widthMask(mode)
+			}
+			if g.Coef != x.Coef || uint64(g.Disp)&widthMask(g.ASize) != want {
 				return mm("ea-asize", "absolute address %s encoded as %s", x.Text, g)
 			}
 			if g.Seg != -1 {
